@@ -61,7 +61,9 @@ class World:
         "measure_reorganization_energy is compared within the library's own consistency tolerance (1e-3 of the sum) for overdamped types",
     ]
     rule = ("program = seeded list of constructions (type x parameters x unit context x axis x temperature), a+b, a+=b, a+a, copy, "
-            "value-defined right operands, refused additions (temperature, axis) and reads; after every op every pool entry is "
+            "value-defined and numerically obtained right operands, composites from lists of parameter sets, refused additions "
+            "(temperature, near-equal temperature, axis), read-only queries (windowed transforms, conversions, interpolation), "
+            "functions handed to a CorrelationFunctionMatrix under units, and reads; after every op every pool entry is "
             "compared with the sum of freshly built single components; non-trivial = >=1 accepted addition with >=2 component "
             "types or >=3 components; distinct = distinct event-log digests among non-trivial runs")
 
